@@ -702,6 +702,10 @@ SOURCES = [
     ("negative-index-out-of-range", "l[-9]", "{USE}", None),
     ("first-of-empty-list", "e.first", "{USE}", None),
     ("last-of-empty-list", "e.last", "{USE}", None),
+    ("first-of-empty-hash", "eh.first", "{USE}", None),
+    ("last-of-empty-hash", "eh.last", "{USE}", None),
+    ("first-of-empty-string", "es.first", "{USE}", None),
+    ("first-of-nil", "nl.first", "{USE}", None),
     ("size-of-int", "n.size", "{USE}", None),
     ("first-of-string", "s.first", "{USE}", None),
     ("last-of-string", "s.last", "{USE}", None),
@@ -753,7 +757,7 @@ USES = [
 ]
 # (source, use) pairs that legitimately do not raise under StrictUndefined, with the reason — reviewed by hand
 ENGINE_UNTOUCHED: dict = {}
-ENGINE_DATA = {"d": {"a": 1}, "l": [{"a": 1}, {"a": 2}], "e": [], "n": 5, "s": "abc", "one": [1]}
+ENGINE_DATA = {"d": {"a": 1}, "l": [{"a": 1}, {"a": 2}], "e": [], "eh": {}, "es": "", "nl": None, "n": 5, "s": "abc", "one": [1]}
 
 
 def _render_both(source, data, kind, prog):
